@@ -366,6 +366,79 @@ def ns_run(seq, batching, cls="net", clock="float"):
     return None
 
 
+def run_lengths():
+    """lengths of a run of messages of one kind worth trying: the int literals and numeric module constants of
+    streamer/source.py from 8 up (a source that forwards in portions takes the portion size from one of them), some round
+    numbers, each with its neighbours and its double + 1."""
+    from engine.util import source_words
+    import pyModeS.streamer.source as M
+    base = {16, 64, 100, 128, 256, 1000}
+    base |= {int(v) for v in vars(M).values() if isinstance(v, (int, float)) and not isinstance(v, bool) and 8 <= v <= 5000 and v == int(v)}
+    base |= {x for x in source_words(["streamer/source.py"])["ints"] if 8 <= x <= 5000}
+    out = set()
+    for v in base:
+        out |= {v - 1, v, v + 1, 2 * v + 1}
+    return sorted(x for x in out if x <= 5000)
+
+
+def ns_long(pattern, n, per_read, cls):
+    """one long history: pattern is a string over a (ADS-B), b (Comm-B), A / B (a run of n of them); handed over in reads
+    of per_read messages; everything handed over must have been forwarded (or still be buffered), once, in order."""
+    seq = []
+    for ch in pattern:
+        seq += {"a": ["a17"], "b": ["b20"], "A": ["a17", "a18"] * (n // 2) + ["a17"] * (n % 2), "B": ["b20", "b21"] * (n // 2) + ["b20"] * (n % 2)}[ch]
+    if cls == "net":
+        src = NetSource("localhost", 0, "beast")
+    else:
+        src = RtlSdrSource()
+        src.reset_local_buffer()
+    src.stop_flag = _Flag()
+    pipe = _Pipe()
+    src.raw_pipe_in = pipe
+    handed_a, handed_b = [], []
+    for i in range(0, len(seq), per_read):
+        batch = []
+        for k, nm in enumerate(seq[i:i + per_read]):
+            t = 100.25 + 0.25 * (i + k)
+            batch.append((NS_ALPHA[nm], t))
+            (handed_a if nm[0] == "a" else handed_b).append((NS_ALPHA[nm], t))
+        try:
+            src.handle_messages(batch)
+        except Exception as e:  # noqa: BLE001
+            return "netsource:exception:%s" % type(e).__name__
+    got_a = [(m, ts) for d in pipe.sent for m, ts in zip(d["adsb_msg"], d["adsb_ts"])] + list(zip(src.local_buffer_adsb_msg, src.local_buffer_adsb_ts))
+    got_b = [(m, ts) for d in pipe.sent for m, ts in zip(d["commb_msg"], d["commb_ts"])] + list(zip(src.local_buffer_commb_msg, src.local_buffer_commb_ts))
+    if got_a != handed_a:
+        return "netsource:adsb_lost_duplicated_or_reordered"
+    if got_b != handed_b:
+        return "netsource:commb_lost_duplicated_or_reordered"
+    for d in pipe.sent:
+        if len(d["adsb_msg"]) != len(d["adsb_ts"]) or len(d["commb_msg"]) != len(d["commb_ts"]):
+            return "netsource:timestamps_not_paired"
+    return None
+
+
+NS_PATTERNS = ["aBa", "aBaa", "Baa", "bAb", "aBAa", "ABab", "aBaBa", "A", "Ab"]
+
+
+def w_nslong(part):
+    acc = Acc()
+    acc.cov["states"] = 0
+    acc.cov["transitions"] = 0
+    for n in run_lengths()[part::4]:
+        for pat in NS_PATTERNS:
+            for per_read in sorted({1, 2, 15, n, n + 1, 10 ** 6}):
+                for cls in ("net", "rtl"):
+                    acc.n += 1
+                    acc.cov["transitions"] += 1
+                    s = ns_long(pat, n, per_read, cls)
+                    if s:
+                        acc.bad(s + ":long_run" + ("" if cls == "net" else ":RtlSdrSource"),
+                                {"kind": "nslong", "pattern": pat, "run": n, "per_read": per_read, "cls": cls})
+        acc.out.add(("nslong", n))
+    return acc.res()
+
+
 def compositions(n):
     if n == 0:
         yield ()
@@ -549,6 +622,8 @@ def w_long(arg):
 
 
 def w_any(t):
+    if t[0] == "N":
+        return w_nslong(t[1])
     if t[0] == "L":
         return w_long(t[1])
     if t[0] == "r":
@@ -580,6 +655,7 @@ def run(ctx):
         seqs = [(a,) for a in sorted(alpha)] + [(a, b) for a in core for b in core][:: (1 if ctx.thorough else 3)]
         tasks += [("r", (framer, c)) for c in chunks(seqs, 6)]
     tasks += [("L", (framer, part)) for framer in ("beast", "raw", "skysense") for part in range(4)]
+    tasks += [("N", part) for part in range(4)]
     ctx.cov["states"] = 0
     ctx.cov["transitions"] = 0
     ctx.pmap(w_any, tasks)
@@ -590,6 +666,9 @@ def run(ctx):
 
 
 def replay(case):
+    if case["kind"] == "nslong":
+        s_ = ns_long(case["pattern"], case["run"], case["per_read"], case["cls"])
+        return [(s_ + ":long_run" + ("" if case["cls"] == "net" else ":RtlSdrSource"), case)] if s_ else []
     if case["kind"] == "long":
         return [(s_, c_) for part in range(4) for s_, c_ in w_long((case["framer"], part))["viols"] if c_["piece"] == case["piece"]]
     if case["kind"] == "runloop":
